@@ -40,27 +40,13 @@ const conversionsRaw = `func convFromFloat64s(to Dtype, data []float64) interfac
 		{{else if eq .String "complex64" -}}
 			retVal := make([]complex64, len(data))
 			for i, v := range data {
-				switch {
-				case math.IsNaN(v):
-					retVal[i] = complex64(cmplx.NaN())
-				case math.IsInf(v, 0):
-					retVal[i] = complex64(cmplx.Inf())
-				default:
-					retVal[i] = complex(float32(v), float32(0))
-				}
+				retVal[i] = complex(float32(v), float32(0))
 			}
 			return retVal
 		{{else if eq .String "complex128" -}}
 			retVal := make([]complex128, len(data))
 			for i, v := range data {
-				switch {
-				case math.IsNaN(v):
-					retVal[i] = cmplx.NaN()
-				case math.IsInf(v, 0):
-					retVal[i] = cmplx.Inf()
-				default:
-					retVal[i] = complex(v, float64(0))
-				}
+				retVal[i] = complex(v, float64(0))
 			}
 			return retVal
 		{{else -}}
@@ -105,25 +91,11 @@ func convToFloat64s(t *Dense) (retVal []float64){
 			}
 		{{else if eq .String "complex64" -}}
 			for i, v := range t.{{sliceOf .}} {
-				switch {
-				case cmplx.IsNaN(complex128(v)):
-					retVal[i] = math.NaN()
-				case cmplx.IsInf(complex128(v)):
-					retVal[i] = math.Inf(1)
-				default:
-					retVal[i] = float64(real(v))
-				}
+				retVal[i] = float64(real(v))
 			}
 		{{else if eq .String "complex128" -}}
 			for i, v := range t.{{sliceOf .}} {
-				switch {
-				case cmplx.IsNaN(v):
-					retVal[i] = math.NaN()
-				case cmplx.IsInf(v):
-					retVal[i] = math.Inf(1)
-				default:
-					retVal[i] = real(v)
-				}
+				retVal[i] = real(v)
 			}
 		{{else -}}
 			for i, v := range t.{{sliceOf .}} {
